@@ -245,18 +245,18 @@ let check_waker_under_lock (evs : ev array) : string option =
   !err
 
 (* ---------------- lock acquisitions per call ---------------- *)
-let allowed_locks (op : string) : int list =
+(* how many times a call of this kind takes the channel lock: `base` acquisitions for its own
+   critical section, plus one for every cancel / still-listed look-up it performs *)
+let base_locks (op : string) : int list option =
   match op with
-  | "send" | "recv" | "trysend" | "tryrecv" | "drain" | "close" | "len" | "scount" | "rcount" | "isclosed" -> [ 1 ]
-  | "sendto" | "sendoptto" | "recvto" -> [ 1; 2 ]
-  | "trysendrt" | "tryrecvrt" -> [ 0; 1 ]
-  | "poll" -> [ 0; 1 ]
-  | "dropf" -> [ 0; 1 ]
-  | "mksend" | "mkrecv" | "mkstream" -> [ 0 ]
-  | "drops" | "dropr" -> [ 1 ]
-  | "clones" -> [ 2 ]
-  | "cloner" -> [ 2 ]
-  | _ -> []
+  | "send" | "recv" | "trysend" | "tryrecv" | "drain" | "close" | "len" | "scount" | "rcount" | "isclosed"
+  | "sendto" | "sendoptto" | "recvto" | "drops" | "dropr" -> Some [ 1 ]
+  | "trysendrt" | "tryrecvrt" -> Some [ 0; 1 ]
+  | "poll" -> Some [ 0; 1 ]
+  | "dropf" -> Some [ 0 ]
+  | "mksend" | "mkrecv" | "mkstream" -> Some [ 0 ]
+  | "clones" | "cloner" -> Some [ 2 ]
+  | _ -> None
 
 let check_lock_counts (evs : ev array) : string option =
   let cur = Hashtbl.create 8 in
@@ -264,16 +264,21 @@ let check_lock_counts (evs : ev array) : string option =
   Array.iter (fun e ->
       if !err = None then
         match e.kind with
-        | "OPB" -> Hashtbl.replace cur e.tid ((match e.note with o :: _ -> o | [] -> ""), 0, e.step)
+        | "OPB" -> Hashtbl.replace cur e.tid ((match e.note with o :: _ -> o | [] -> ""), 0, e.step, 0)
         | "CAS" when String.length e.loc > 0 && e.loc.[0] = 'L' && e.res >= 256 ->
-          (match Hashtbl.find_opt cur e.tid with Some (o, n, s) -> Hashtbl.replace cur e.tid (o, n + 1, s) | None -> ())
+          (match Hashtbl.find_opt cur e.tid with Some (o, n, s, x) -> Hashtbl.replace cur e.tid (o, n + 1, s, x) | None -> ())
+        | "ACC" when (match e.a with "cancel_ok" | "cancel_fail" | "still_listed" | "not_listed" -> true | _ -> false) ->
+          (match Hashtbl.find_opt cur e.tid with Some (o, n, s, x) -> Hashtbl.replace cur e.tid (o, n, s, x + 1) | None -> ())
         | "OPE" ->
           (match Hashtbl.find_opt cur e.tid with
-           | Some (o, n, s) ->
-             let al = allowed_locks o in
-             if al <> [] && not (List.mem n al) then
-               err := Some (Printf.sprintf "thread=%d call '%s' (begun at step %d) took the channel lock %d times; allowed: %s" e.tid o s n
-                              (String.concat "/" (List.map string_of_int al)));
+           | Some (o, n, s, x) ->
+             (match base_locks o with
+              | Some al ->
+                let al = List.map (fun b -> b + x) al in
+                if not (List.mem n al) then
+                  err := Some (Printf.sprintf "thread=%d call '%s' (begun at step %d) took the channel lock %d times; its kind allows %s (one critical section, plus one per cancel / listed look-up)"
+                                 e.tid o s n (String.concat " or " (List.map string_of_int al)))
+              | None -> ());
              Hashtbl.remove cur e.tid
            | None -> ())
         | _ -> ()) evs;
